@@ -37,6 +37,9 @@ EXPECTED_PLACEMENT = {
 }
 
 
+FREE_SETS = set()
+
+
 def placement_table(repo, rep):
   """class -> set of (in_treatment, in_control) outcomes of the generators."""
   cls = repo.cls(search.MM)
@@ -46,6 +49,7 @@ def placement_table(repo, rep):
   ty = c01._yields(ft)
   cy = c01._yields(fc)
   table = {k: set() for k in EXPECTED_PLACEMENT}
+  FREE_SETS.clear()
   for tn, tyv in ty:
     for cn, cyv in cy:
       # evaluate T in the treatment generator's context, then C in the control generator with param := T
@@ -59,6 +63,9 @@ def placement_table(repo, rep):
       tp = fc.params[1]
       C = scc.ev(cn, cyv.value, bind={tp: T2})
       env = scc.env
+      # sets the evaluation could not follow to the eligibility classes (a cache entry, a field, a helper's result) are
+      # free variables: placements computed with them say nothing about the program
+      FREE_SETS.update(k_ for ctx_ in (sct, sct2, scc) for k_ in getattr(ctx_, 'names', {}) if str(k_).startswith('var:'))
       for k in table:
         rows = env.table(scc.cls[k] & scc.legal if k != 'x_fixed' else scc.cls[k], env.atoms)
         for r in range(env.rows):
@@ -75,6 +82,10 @@ def r1_placement(repo, rep):
   n_seen = sum(len(c01._yields(cls_.methods[fn_])) for fn_ in ('treatment_group_generator', 'control_group_generator') if cls_.methods.get(fn_) is not None)
   for k, want in sorted(EXPECTED_PLACEMENT.items()):
     got = table.get(k)
+    if got != want and FREE_SETS:
+      rep.undecided('R1/placement', 'class %s' % k, 'the yielded groups read sets that are not followed back to the eligibility classes (%s): the placements computed with them are not the program\'s'
+                    % ', '.join(sorted(FREE_SETS))[:120], '')
+      continue
     if got != want and (not got or (got < want and n_seen < n_y)):
       rep.undecided('R1/placement', 'class %s' % k, 'only %d of the %d yields of the generators are in a form whose value is followed (placements found: %s)' % (n_seen, n_y, sorted(got)), '')
       continue
@@ -411,6 +422,6 @@ def run(repo, rep, tier):
   r2_exact(repo, rep)
   # a class whose placements were not followed (R1 undecided: yields through a helper) is counted against the placements
   # its eligibility row allows
-  table = {k: (v if v else set(EXPECTED_PLACEMENT.get(k, ()))) for k, v in table.items()}
+  table = {k: (v if v and not FREE_SETS else set(EXPECTED_PLACEMENT.get(k, ()))) for k, v in table.items()}
   r2_normal_form(repo, rep, table)
   r3_sizes(repo, rep)
